@@ -467,7 +467,12 @@ def check_counter_capacity(ctx):
             dt = arrs[a.target.value.id]
             sl = backward_slice(fi, dt)
             if 'choose_int_dtype' not in sl.call_names():
-                continue        # a fixed type: not judged here
+                # a fixed type: capacity is that of the type, not judged
+                n += 1
+                ctx.ok(rule, f'{fi.qual}:counter#{n - 1}', fi.loc(a),
+                       f'the counter has the fixed type `{unparse(dt)}`',
+                       nontrivial=False)
+                continue
             # the loops around the increment
             need = set()
             rd = rd_of(fi)
